@@ -71,7 +71,7 @@ def judge_extract(case, res):
     fails = []
     leak = [w for w in got if w in case['hidden']]
     if leak:
-        fails.append('an occurrence in a comment / skipped region / verbatim material is reported: %r' % leak[:3])
+        fails.append('an occurrence in a comment / skipped region / verbatim material / the definitions text is reported: %r' % leak[:3])
     if got != want:
         fails.append('extraction gives %r, the first mandatory arguments of the listed macros are %r' % (got[:10], want[:10]))
     return fails
@@ -182,7 +182,13 @@ def run(ctx):
     ecases = []
     for _ in range(ctx.scale(700, 20000)):
         src, expect, hidden = gen_extract_doc(rng)
-        ecases.append({'src': src, 'opts': {'pack': rng.choice(['*', '']), 'extr': 'inc,incb'}, 'multi': False, 'kind': 'extract',
+        opts = {'pack': rng.choice(['*', '']), 'extr': 'inc,incb'}
+        if rng.random() < 0.2:
+            # a definitions text that uses a listed macro itself: what it names belongs to the definitions, not to the document
+            hw = gen.Names(rng).word() + 'def'
+            opts['defs'] = '\\newcommand{\\zq}{z}\n\\inc{' + hw + '}\n'
+            hidden = hidden + [hw]
+        ecases.append({'src': src, 'opts': opts, 'multi': False, 'kind': 'extract',
                        'expect': expect, 'hidden': hidden})
     ctx.stats['_rule'] = ('(a) documents with listed and unlisted macros in text, arguments of unknown macros, groups, comments, skipped regions, '
                           'verbatim material, run with an extraction list; (b) inclusion graphs over 1-%d files with cycles, self-inclusion, duplicates, '
